@@ -35,6 +35,8 @@ MustFail(d, k) == k \notin opened[d] /\ (reg[d] = -1 \/ k <= reg[d])
 Inside(d, k) == last[d] # -1 /\ last[d] - N + 1 <= k /\ k <= last[d] + N - 2
 Outside(d, k) == last[d] = -1 \/ k < last[d] - N - 1 \/ k > last[d] + N
 Faithful == Ev.same /\ Ev.pdev /\ Ev.pk = Ev.k
+\* every payload an earlier open / push returned is still the original one (results must not alias a reused buffer)
+Kept == ("kept" \in DOMAIN Ev) => Ev.kept
 
 MReset == /\ Consume("reset")
           /\ sent' = [d \in Dev |-> 0] /\ reg' = [d \in Dev |-> -1]
@@ -48,13 +50,13 @@ MRegister == /\ Consume("register") /\ Ev.ok
                   THEN reg' = [reg EXCEPT ![Ev.d] = Ev.a] /\ last' = [last EXCEPT ![Ev.d] = Ev.a + W]
                   ELSE UNCHANGED <<reg, last>>
              /\ UNCHANGED <<sent, opened>>
-MOpen == /\ Consume("open")
+MOpen == /\ Consume("open") /\ Kept
          /\ (MustOpen(Ev.d, Ev.k) => Ev.ok)
          /\ (MustFail(Ev.d, Ev.k) => ~Ev.ok)
          /\ (Ev.ok => Faithful)
          /\ opened' = IF Ev.ok THEN [opened EXCEPT ![Ev.d] = @ \cup {Ev.k}] ELSE opened
          /\ UNCHANGED <<sent, reg, last>>
-MPush == /\ Consume("push")
+MPush == /\ Consume("push") /\ Kept
          /\ ((MustOpen(Ev.d, Ev.k) /\ Inside(Ev.d, Ev.k)) => Ev.ok)
          /\ ((MustFail(Ev.d, Ev.k) \/ Outside(Ev.d, Ev.k)) => ~Ev.ok)
          /\ (Ev.ok => Faithful /\ Ev.pgroup /\ (Ev.already <=> Ev.k \in opened[Ev.d]))
